@@ -55,7 +55,9 @@ class BirthDeathModel(CallableModel):
             rho = torch.cat(
                 (
                     torch.zeros(
-                        self.rho.shape[:-1] + (lambda_.shape[-1] - self.rho.shape[-1],)
+                        self.rho.shape[:-1] + (lambda_.shape[-1] - self.rho.shape[-1],),
+                        dtype=lambda_.dtype,
+                        device=lambda_.device,
                     ),
                     self.rho.tensor,
                 ),
